@@ -28,6 +28,8 @@ pub enum COp {
     Put { publisher: u8, name: u8, content: u8 },
     /// an RRDP update whose file writes are cut at the k-th mutation
     FaultyUpdate { k: u8, crash: bool },
+    /// a session reset whose file writes are cut at the k-th mutation
+    FaultyReset { k: u8, crash: bool },
     /// re-write the repository files (as the daemon does at start-up)
     WriteRepository,
 }
@@ -53,6 +55,9 @@ struct Client {
     /// (session, serial) -> virtual time of first observation
     seen_at: BTreeMap<(String, u64), i64>,
     last: Option<(String, u64)>,
+    /// a session reset was started but its write was interrupted: the new
+    /// session may show up with any later write
+    reset_pending: bool,
     /// (session, serial) -> virtual time at which the server reached it
     created_at: BTreeMap<(String, u64), i64>,
     truncations: usize,
@@ -140,8 +145,11 @@ fn observe2(w: &PubWorld, client: &mut Client, case: &Case, expect: Option<&Obje
                 // several updates may have happened between observations only
                 // after an interrupted write; the delta chain check covers that
             }
-        } else if !after_reset {
+        } else if !after_reset && !client.reset_pending {
             return Err(bad("c11-session", "changed-without-reset", format!("session changed from {ls} to {} without a reset", n.session)));
+        } else if !after_reset && client.reset_pending {
+            // the interrupted reset became visible with a later write
+            client.reset_pending = false;
         } else if n.serial != 1 || !serials.is_empty() {
             return Err(bad("c11-session", "reset-not-at-serial-1", format!("after a reset the notification has serial {} and deltas {serials:?}", n.serial)));
         }
@@ -247,6 +255,7 @@ impl Prop for C11 {
                     1 => (0..n_pub).prop_map(|publisher| COp::P(POp::RemovePublisher { publisher })),
                     1 => (0..n_pub).prop_map(|publisher| COp::P(POp::AddPublisher { publisher })),
                     3 => (1u8..16, any::<bool>()).prop_map(|(k, crash)| COp::FaultyUpdate { k, crash }),
+                    2 => (1u8..12, any::<bool>()).prop_map(|(k, crash)| COp::FaultyReset { k, crash }),
                     1 => Just(COp::WriteRepository),
                     1 => Just(COp::P(POp::Restart)),
                 ];
@@ -397,13 +406,18 @@ impl Prop for C11 {
                         return o;
                     }
                 }
-                COp::FaultyUpdate { k, crash } => {
+                COp::FaultyUpdate { k, crash } | COp::FaultyReset { k, crash } => {
+                    let is_reset = matches!(op, COp::FaultyReset { .. });
                     let repo_dir = w.sim.w().repo_dir();
                     let mode = if *crash { FaultMode::CrashAt(*k as usize) } else { FaultMode::FailAt(*k as usize) };
                     hooks::h().set_fault(mode, Some(repo_dir.clone()));
                     let r = {
                         let ww = w.sim.w();
-                        guarded(|| ww.repo().update_rrdp_if_needed())
+                        if is_reset {
+                            guarded(|| ww.repo().rrdp_session_reset().map(|_| None))
+                        } else {
+                            guarded(|| ww.repo().update_rrdp_if_needed())
+                        }
                     };
                     let (points, _log, fired) = hooks::h().fault_off();
                     match r {
@@ -420,7 +434,10 @@ impl Prop for C11 {
                                 dirty = true;
                                 *w.stats.entry(format!("cut_at_point_{}", (*k).min(12))).or_default() += 1;
                                 // at this instant: whatever notification is on disk must be fully consistent
-                                if let Some(o) = step(observe(&w, &mut client, case, None, false), i, op) {
+                                if is_reset {
+                                    client.reset_pending = true;
+                                }
+                                if let Some(o) = step(observe2(&w, &mut client, case, None, false, false), i, op) {
                                     return o;
                                 }
                                 let _ = res;
@@ -432,7 +449,14 @@ impl Prop for C11 {
                                 }
                                 if !dirty {
                                     let union = w.model_union();
-                                    if let Some(o) = step(observe(&w, &mut client, case, Some(&union), false), i, op) {
+                                    let expect = if is_reset { None } else { Some(&union) };
+                                    if let Some(o) = step(observe2(&w, &mut client, case, expect, is_reset, true), i, op) {
+                                        return o;
+                                    }
+                                } else if is_reset {
+                                    // a reset is a complete re-write: it repairs an earlier interruption
+                                    dirty = false;
+                                    if let Some(o) = step(observe2(&w, &mut client, case, None, true, true), i, op) {
                                         return o;
                                     }
                                 }
